@@ -12,3 +12,6 @@ open Cst.C13
 #print axioms tao_total
 #print axioms tao_spec
 #print axioms tao_complete
+#print axioms tao_iter
+#print axioms tao_iter_next
+#print axioms tao_iter_map
